@@ -63,6 +63,9 @@ func (SlidingWindow) New(cfg Config) fiber.Handler {
 			// the next request and not show the correct expiry.
 			elapsed := ts - e.exp
 			if elapsed >= expiration {
+				// More than a whole window passed without a request:
+				// the previous window is empty, its hits must not be weighed in.
+				e.prevHits = 0
 				e.exp = ts + expiration
 			} else {
 				e.exp = ts + expiration - elapsed
